@@ -35,7 +35,10 @@ def load_module(sources, prelude=''):
     path = os.path.join(d, name + '.py')
     text = [prelude, 'G = 0', '']
     for i, src in enumerate(sources):
-        text.append(src.replace('def f(', 'def f%d(' % i, 1))
+        src = src.replace('def f(', 'def f%d(' % i, 1)
+        if src.startswith('f = lambda'):
+            src = 'f%d = lambda' % i + src[len('f = lambda'):]
+        text.append(src)
         text.append('')
     with open(path, 'w') as f:
         f.write('\n'.join(text))
